@@ -283,6 +283,7 @@ class FuncTranslator:
         self.inline_stack = []
         self.inlining = 0
         self.varkinds = {}
+        self._callshape = None
         fn = self.node
         names = self.all_args(fn.args)
         deco = {dotted(d) for d in fn.decorator_list}
@@ -421,8 +422,16 @@ class FuncTranslator:
         self.counter += 1
         tag = f"n{self.counter}"
         scope = {}
+        pinned = self.pinned_defaults(fn)
         for p in self.all_args(fn.args):
             scope[p] = f"{tag}:p:{p}"
+            if p in pinned:
+                # `name=<expr>` never overridden by any call in this function (the default-argument
+                # closure idiom): the parameter IS its default, evaluated in the enclosing scope
+                ys, cb = self.alias(pinned[p])
+                self.varkinds.setdefault(scope[p], set()).add(self.kind(pinned[p]))
+                self.assign(self.var(scope[p]), ys, cb, fn.lineno)
+                continue
             self.varkinds.setdefault(scope[p], set()).add("unknown")
             self.assign(self.var(scope[p]), [], True, fn.lineno)
         if not isinstance(fn, ast.Lambda):
@@ -440,6 +449,81 @@ class FuncTranslator:
         self.retstack.pop()
         self.scopes.pop()
         return ret
+
+    def pinned_defaults(self, fn) -> dict:
+        """Parameters of a nested def / lambda that have a default value and that no call inside
+        the enclosing top-level function can override: -> {name: default expression}.
+
+        A nested function object is reachable from outside only through what the enclosing function
+        returns; when it is itself a returned value (or the enclosing function stores it on `self`)
+        nothing is pinned.  Otherwise the only call sites are the ones in this function's text:
+        a parameter at positional index i is overridable if some call whose callee is not a dotted
+        (module / method) name passes more than i positional arguments, a `*args`, a keyword of
+        that name or a `**kwargs`."""
+        import builtins
+        a = fn.args
+        pos = a.posonlyargs + a.args
+        cand = {}
+        for k, d in enumerate(a.defaults):
+            cand[pos[len(pos) - len(a.defaults) + k].arg] = (len(pos) - len(a.defaults) + k, d)
+        for x, d in zip(a.kwonlyargs, a.kw_defaults):
+            if d is not None:
+                cand[x.arg] = (None, d)
+        if not cand:
+            return {}
+        top = self.node
+        if getattr(self, "_callshape", None) is None:
+            maxpos, kws, star, escaping = 0, set(), False, set()
+            assigned = self.assigned_names(top) | set(self.all_args(top.args))
+            for n in ast.walk(top):
+                if isinstance(n, ast.Call) and not isinstance(n.func, ast.Attribute):
+                    if isinstance(n.func, ast.Name) and n.func.id not in assigned and hasattr(builtins, n.func.id):
+                        continue
+                    if isinstance(n.func, ast.Name) and n.func.id not in assigned and n.func.id in self.module_globals:
+                        continue
+                    if any(isinstance(x, ast.Starred) for x in n.args):
+                        star = True
+                    if any(k.arg is None for k in n.keywords):
+                        star = True
+                    maxpos = max(maxpos, len(n.args))
+                    kws |= {k.arg for k in n.keywords if k.arg}
+                # function objects that leave the function directly
+                if isinstance(n, ast.Return) and n.value is not None:
+                    for m in ast.walk(n.value):
+                        if isinstance(m, ast.Lambda):
+                            escaping.add(id(m))
+                        if isinstance(m, ast.Name):
+                            escaping.add(m.id)
+                if isinstance(n, (ast.Assign, ast.AugAssign, ast.AnnAssign)):
+                    tg = n.targets if isinstance(n, ast.Assign) else [n.target]
+                    if any(isinstance(t, ast.Attribute) for t in tg) and n.value is not None:
+                        for m in ast.walk(n.value):
+                            if isinstance(m, ast.Lambda):
+                                escaping.add(id(m))
+                            if isinstance(m, ast.Name):
+                                escaping.add(m.id)
+            self._callshape = (maxpos, kws, star, escaping)
+        maxpos, kws, star, escaping = self._callshape
+        if star or id(fn) in escaping or getattr(fn, "name", None) in escaping:
+            return {}
+        # a lambda / def held in a local name or container that is itself returned escapes too
+        holders = set()
+        for n in ast.walk(top):
+            if isinstance(n, ast.Assign) and any(m is fn for m in ast.walk(n.value)):
+                holders |= {t.id for t in n.targets if isinstance(t, ast.Name)}
+            if isinstance(n, ast.Call) and isinstance(n.func, ast.Attribute) and isinstance(n.func.value, ast.Name) \
+                    and any(m is fn for a_ in n.args for m in ast.walk(a_)):
+                holders.add(n.func.value.id)
+        if holders & escaping:
+            return {}
+        out = {}
+        for name, (idx, d) in cand.items():
+            if name in kws:
+                continue
+            if idx is not None and maxpos > idx:
+                continue
+            out[name] = d
+        return out
 
     def inline_call(self, fn: ast.FunctionDef, call: ast.Call):
         """Inline a call of a private module-level function: its parameters are bound to what the
